@@ -5,6 +5,7 @@ package acl
 // every key written is covered by the user's rules.
 
 import (
+	"github.com/gobwas/glob"
 	"net"
 	"strconv"
 	"strings"
@@ -40,7 +41,7 @@ func symRules(name string, max int) []string {
 		if vr.Choose(name+"_star"+strconv.Itoa(i), 2) == 1 {
 			out = append(out, "*")
 		} else {
-			out = append(out, vr.Tok(name+"_"+strconv.Itoa(i)))
+			out = append(out, verifValid(vr.Tok(name+"_"+strconv.Itoa(i))))
 		}
 	}
 	return out
@@ -92,7 +93,8 @@ func Verif_C06_Decision_ReadKeys()   { c06KeyFamily = 0; c06Decision(2) }
 func Verif_C06_Decision_WriteKeys()  { c06KeyFamily = 1; c06Decision(2) }
 
 var c06KeyFamily int
-func Verif_C06_Decision_Channels()   { c06Decision(3) }
+
+func Verif_C06_Decision_Channels() { c06Decision(3) }
 
 // c06Decision: arbitrary user rules of one family (the other families allow everything) x
 // arbitrary command shape.
@@ -196,4 +198,11 @@ func c06Decision(which int) {
 		vr.Assert(err != nil, "C06.decision.denies_what_the_rules_do_not_allow")
 	}
 	vr.Reach("end")
+}
+
+// verifValid: p is a syntactically valid glob (the handlers refuse the others before they get here).
+func verifValid(p string) string {
+	_, err := glob.Compile(p)
+	vr.Assume(err == nil)
+	return p
 }
